@@ -105,6 +105,7 @@ fn real_main() {
         "c05-families" => props::tools::c05_families(),
         "c16-batch" => props::c16::batch_main(),
         "twice" => props::tools::twice(&args[2..]),
+        "fmt" => props::tools::fmt(&args[2..]),
         id => {
             let prop = match props::lookup(id) {
                 Some(p) => p,
